@@ -192,9 +192,21 @@ def _streams(S: int, picks: list[int], b0: int, settings_at: int, settings_val: 
             return
     rt = vrt.new_runtime(clock=5)
     vrt.RT.phase = su._phase
-    rt.on_idle = lambda: bool(su.net.socks) and script.release(su.net.socks[0])
     callers = [Caller(f"s{i}", su.url(f"s{i}"), f"s{i}".encode(), behaviour="abandon" if i == abandon_idx else "read")
                for i in range(S)]
+    idle_with_streams: list[str] = []
+
+    def at_rest() -> bool:
+        # sampled whenever every caller is blocked: a connection on which a
+        # caller is still waiting for (part of) its response must not report
+        # idle - the pool evicts, expires and closes idle connections
+        waiting = [c.name for c in callers if not c.finished and rt.task(c.name).state == "blocked"
+                   and any(srv.path(sid) == b"/" + c.token for o in su.origins for srv in [o] for sid in srv.streams)]
+        if waiting and any(x.is_idle() for x in su.pool.connections):
+            idle_with_streams.append(",".join(waiting))
+        return bool(su.net.socks) and script.release(su.net.socks[0])
+
+    rt.on_idle = at_rest
     # optionally the first caller is cancelled at a scheduler step: the others
     # must still receive exactly their own streams
     run_callers(su, callers, devs, [("s0", cancel_at, False)] if cancel_at else [])
@@ -211,13 +223,24 @@ def _streams(S: int, picks: list[int], b0: int, settings_at: int, settings_val: 
         P.cover("interleaved")
     where = (f"settings={settings_val}@{'below-in-flight' if 0 < settings_val < S else 'ok'}" if settings_val > 0
              else ("other-setting" if settings_val else "plain"))
+    P.check(not idle_with_streams, "connection-with-open-streams-never-reports-idle",
+            lambda: f"{sig}:idle-with-open-streams:{'after-a-cancelled-caller' if cancel_at else 'undisturbed'}", prop="C12")
     # -------- each caller receives exactly its own stream
     for prop in ("C12", "C01", "C02", "C08"):
         token_oracle(callers, prop, sig)
     if cancel_at:
-        # a caller cancelled mid-exchange is outside C12's quantifier (callers
-        # "read or abandon"): only isolation of what the others received is
-        # asserted for those runs
+        # a caller cancelled while it is still *sending* is outside C12's
+        # quantifier (callers "read or abandon"): only isolation of what the
+        # others received is asserted for those runs.  Once its request has
+        # completely reached the server, being cancelled is one way of
+        # abandoning the response: the other streams must still complete.
+        s0_sent = [sid for sid, st in srv.streams.items() if srv.path(sid) == b"/s0" and st["ended"]]
+        if s0_sent and not rt.deadlocked:
+            P.cover("cancelled-while-waiting-for-the-response")
+            for c in callers:
+                if c.name != "s0":
+                    P.check(c.exc is None and c.status == 200, "other-streams-complete-when-a-reader-is-cancelled",
+                            lambda: f"{sig}:stream-failed-after-cancel:{type(c.exc).__name__}:{su.where()}", prop="C12")
         return
     # -------- cannot wedge each other
     P.check(not rt.deadlocked, "no-stream-wedges-another",
